@@ -61,6 +61,10 @@ Lemma handlers_ok : handlers =
   [("AllocID", ["validateRequest"]); ("AskBatchSplit", ["validateRequest"]); ("AskSplit", ["validateRequest"]); ("Bootstrap", ["validateRequest"]); ("GetAllStores", ["validateRequest"]); ("GetClusterConfig", ["validateRequest"]); ("GetDCLocationInfo", ["validateInternalRequest"]); ("GetGCSafePoint", ["validateRequest"]); ("GetMembers", []); ("GetOperator", ["validateRequest"]); ("GetPrevRegion", ["validateRequest"]); ("GetRegion", ["validateRequest"]); ("GetRegionByID", ["validateRequest"]); ("GetStore", ["validateRequest"]); ("IsBootstrapped", ["validateRequest"]); ("PutClusterConfig", ["validateRequest"]); ("PutStore", ["validateRequest"]); ("RegionHeartbeat", ["validateRequest"]); ("ReportBatchSplit", ["validateRequest"]); ("ReportSplit", ["validateRequest"]); ("ScanRegions", ["validateRequest"]); ("ScatterRegion", ["validateRequest"]); ("SplitRegions", ["validateRequest"]); ("StoreHeartbeat", ["validateRequest"]); ("SyncMaxTS", ["validateInternalRequest"]); ("SyncRegions", ["syncer"]); ("Tso", ["compare"]); ("UpdateGCSafePoint", ["validateRequest"]); ("UpdateServiceGCSafePoint", ["validateRequest"])].
 Proof. reflexivity. Qed.
 
+Lemma pre_validation_calls_ok : pre_validation_calls =
+  [("AllocID", []); ("AskBatchSplit", []); ("AskSplit", []); ("Bootstrap", []); ("GetAllStores", []); ("GetClusterConfig", []); ("GetDCLocationInfo", []); ("GetGCSafePoint", []); ("GetMembers", ["IsClosed"; "GetClient"; "GetEtcdLeader"; "GetTSOAllocatorManager"; "GetLeader"; "header"; "<never validates>"]); ("GetOperator", []); ("GetPrevRegion", []); ("GetRegion", []); ("GetRegionByID", []); ("GetStore", []); ("IsBootstrapped", []); ("PutClusterConfig", []); ("PutStore", []); ("RegionHeartbeat", ["Recv"; "Context"; "GetRaftCluster"; "notBootstrappedHeader"; "Send"]); ("ReportBatchSplit", []); ("ReportSplit", []); ("ScanRegions", []); ("ScatterRegion", []); ("SplitRegions", []); ("StoreHeartbeat", []); ("SyncMaxTS", []); ("SyncRegions", []); ("Tso", ["Recv"; "Context"; "IsClosed"]); ("UpdateGCSafePoint", []); ("UpdateServiceGCSafePoint", ["Lock"; "Unlock"])].
+Proof. reflexivity. Qed.
+
 Lemma syncer_sync_conds_ok : syncer_sync_conds =
   ["err == io.EOF"; "err != nil"; "clusterID != s.server.ClusterID()"; "err != nil"].
 Proof. reflexivity. Qed.
